@@ -1275,10 +1275,33 @@ impl Domain for D {
         Box::new(R { refdeltas: BTreeMap::new(), refout: vec![], refpool: vec![] })
     }
     fn gen(&self, tier: &str, seed: u64, w: &mut dyn Write) {
-        if let Err(msg) = catch(|| gen_all(tier, seed, w)) {
+        let mut buf: Vec<u8> = vec![];
+        if let Err(msg) = catch(|| gen_all(tier, seed, &mut buf)) {
             eprintln!("generator panic: {}", msg);
             std::process::exit(101);
         }
+        // the requests are independent: emit them in a strided order so that the expensive
+        // sweep lines are spread over all shards
+        let text = String::from_utf8(buf).unwrap();
+        let lines: Vec<&str> = text.lines().collect();
+        let n = lines.len();
+        let mut stride = 7919 % n.max(1);
+        if n < 2 || stride == 0 || gcd(stride, n) != 1 {
+            stride = 1;
+        }
+        let mut j = 0usize;
+        for _ in 0..n {
+            writeln!(w, "{}", lines[j]).unwrap();
+            j = (j + stride) % n;
+        }
+    }
+}
+
+fn gcd(a: usize, b: usize) -> usize {
+    if b == 0 {
+        a
+    } else {
+        gcd(b, a % b)
     }
 }
 
@@ -1307,8 +1330,8 @@ fn gen_all(tier: &str, seed: u64, w: &mut dyn Write) {
             sweeps.push(("ddnet", 0b1101, 7));
             sweeps.push(("none", 0b0011, 32));
             sweeps.push(("ddnet", 0b1001, 32));
-            sweeps.push(("none", 0b1111, 7));
-            sweeps.push(("ddnet", 0b1111, 7));
+            sweeps.push(("none", 0b1111, 4));
+            sweeps.push(("ddnet", 0b1111, 4));
         }
         for (name, mask, radix) in sweeps {
             let nk = (mask as u32).count_ones();
